@@ -91,13 +91,74 @@ func lawRowBracket(t *Tracer, r Rng) {
 	emitLaw(t, "RowBracketHierarchy", map[string]any{"p": hexTriple(p.Lon(), p.Lat(), p.Alt()), "hc": hc, "hf": hf, "v": v}, coarse, out, "")
 }
 
+// lawMixedZoomList: ChangeExtendedSpatialIdsZoom of a list mixing zoom pairs equals the union of the conversions of
+// its members.  The zoom pairs are chosen next to each other under the usual ways of packing (h, v) into one number
+// (h*35+v, h*36+v, h<<5|v, swapped, one apart), including the extremes 0 and 35 in one list.
+func lawMixedZoomList(t *Tracer, r Rng) {
+	h, v := r.In(1, 34), r.In(0, 35)
+	if r.Chance(0.5) {
+		v = r.Pick(0, 35, 34, 1, 32, 31)
+	}
+	type hv struct{ h, v int64 }
+	clip := func(z int64) int64 { return max(0, min(35, z)) }
+	cands := []hv{{h, v}, {h + 1, v - 35}, {h - 1, v + 35}, {h + 1, v - 36}, {h - 1, v + 36}, {h + 1, v - 32}, {h - 1, v + 32},
+		{h, v + 1}, {h, v - 1}, {h + 1, v}, {h - 1, v}, {h + 1, 0}, {h - 1, 35}, {h, 35 - v}, {h + 1, v}, {h, v}}
+	k := 2 + r.Intn(3)
+	zs := []hv{{h, v}}
+	for len(zs) < k {
+		c := cands[r.Intn(len(cands))]
+		if c.v < 0 || c.v > 35 || c.h < 0 || c.h > 35 {
+			continue
+		}
+		zs = append(zs, c)
+	}
+	r.Shuffle(len(zs), func(i, j int) { zs[i], zs[j] = zs[j], zs[i] })
+	minV, maxH := int64(35), int64(0)
+	list := []string{}
+	for _, z := range zs {
+		nh, nv := int64(1)<<uint(z.h), int64(1)<<uint(z.v)
+		id := ID{z.h, r.edgeIn(0, nh-1), r.edgeIn(0, nh-1), z.v, r.edgeIn(-nv, nv-1)}
+		list = append(list, id.String())
+		minV, maxH = min(minV, z.v), max(maxH, z.h)
+	}
+	th, tv := clip(maxH+r.In(-3, 1)), clip(minV+r.In(-3, 2)) // at most 4^3 x 2^2 cells per member
+	if r.Chance(0.3) {
+		tv = clip(r.In(0, minV+2))
+	}
+	conv := func(ids []string) ([]string, string) {
+		o, res := guard(func() (any, error) { return integrate.ChangeExtendedSpatialIdsZoom(ids, th, tv) })
+		if o != "ok" {
+			return nil, "outcome " + o
+		}
+		return strs(res), ""
+	}
+	whole, bad := conv(list)
+	set := map[string]bool{}
+	for _, s := range list {
+		one, b1 := conv([]string{s})
+		if b1 != "" && bad == "" {
+			bad = b1
+		}
+		for _, x := range one {
+			set[x] = true
+		}
+	}
+	parts := make([]string, 0, len(set))
+	for x := range set {
+		parts = append(parts, x)
+	}
+	emitLaw(t, "ZoomListIsUnionOfMembers", map[string]any{"ids": list, "to": fmt.Sprint(th, "/", tv)}, sortedCopy(whole), sortedCopy(parts), bad)
+}
+
 func driveLaws(t *Tracer, r Rng, n int) {
 	for i := 0; i < n; i++ {
 		if i%3 == 2 {
 			lawRowBracket(t, r)
 			continue
 		}
-		switch r.Intn(10) {
+		switch r.Intn(12) {
+		case 10, 11: // a list whose members have DIFFERENT zoom pairs is converted member by member (C03: "for every list")
+			lawMixedZoomList(t, r)
 		case 9: // a single tile's IDs are exactly the vertical range the key conversion reports (any magnitude)
 			E := r.In(0, 35)
 			kz := r.In(0, 35)
